@@ -359,6 +359,83 @@ def nego_worker(job):
     return acc
 
 
+# ------------------------------------------------------------------ negotiation with different lists per direction
+ACATS = {
+    'cipher': (['aes128-ctr', 'aes256-ctr', 'aes128-gcm@openssh.com'], 'ciphers', 'ciphers_sc', 'encryption_algs', ('enc_cs', 'enc_sc'),
+               ('recv_cipher', 'send_cipher')),
+    'mac': (['hmac-sha2-256', 'hmac-sha1', 'hmac-sha2-512-etm@openssh.com'], 'macs', 'macs_sc', 'mac_algs', ('mac_cs', 'mac_sc'),
+            ('recv_mac', 'send_mac')),
+    'compression': (['none', 'zlib@openssh.com', 'zlib'], 'comps', 'comps_sc', 'compression_algs', ('cmp_cs', 'cmp_sc'),
+                    ('recv_compression', 'send_compression')),
+}
+
+
+def asym_worker(job):
+    """an RFC 4253 peer may offer different lists for the two directions (asyncssh itself never does): each
+    direction's algorithm is the first on the client's list *for that direction* the server supports"""
+    import refpeer as R
+    import rpharness as H
+    cat, role, l_cs = job
+    alpha, kw_cs, kw_sc, opt, nkeys, ikeys = ACATS[cat]
+    acc = core.Acc()
+    for l_sc in sublists(alpha):
+        if l_sc == l_cs:
+            continue
+        rp_kw = {kw_cs: list(l_cs), kw_sc: list(l_sc)}
+        real = {opt: list(alpha)}
+        if cat == 'mac':
+            rp_kw.update(ciphers=['aes128-ctr'], ciphers_sc=['aes128-ctr'])
+            real['encryption_algs'] = ['aes128-ctr']
+        elif cat != 'cipher':
+            rp_kw.update(ciphers=['aes128-ctr'], ciphers_sc=['aes128-ctr'], macs=['hmac-sha2-256'], macs_sc=['hmac-sha2-256'])
+        else:
+            rp_kw.update(macs=['hmac-sha2-256'], macs_sc=['hmac-sha2-256'])
+        viol = []
+        try:
+            if role == 'server':        # real server, refpeer client offers the asymmetric lists
+                w = H.SrvWorld(sopts=real, rp_kw=rp_kw)
+                want = (l_cs[0], l_sc[0])
+            else:                       # real client (alphabet order), refpeer server supports the asymmetric lists
+                w = H.CliWorld(copts=real, rp_kw=rp_kw)
+                want = (next(a for a in alpha if a in l_cs), next(a for a in alpha if a in l_sc))
+            try:
+                if role == 'server':
+                    w.kex()
+                    w.rp.send(w.rp.service_request())
+                    w.flush()
+                    ok = R.MSG_SERVICE_ACCEPT in w.rp.types()
+                    conn = w.conn
+                    # server: recv = client->server
+                    got = tuple(_s(conn.get_extra_info(k)) for k in ikeys)
+                else:
+                    w.login()
+                    ok = True
+                    conn = w.conn
+                    # client: send = client->server
+                    got = tuple(_s(conn.get_extra_info(k)) for k in (ikeys[1], ikeys[0]))
+                ref = tuple(w.rp.negotiated.get(k) for k in nkeys)
+                if cat == 'mac':
+                    got = tuple(g for g in got)
+                if not ok:
+                    viol.append(('handshake-failed', 'the encrypted service request was not answered: %r' % (w.rp.types()[-3:],)))
+                if ref != want:
+                    viol.append(('harness', 'refpeer negotiated %r, rule says %r' % (ref, want)))
+                if got != want:
+                    viol.append(('not-first-client-match-per-direction', '%s: client->server list %r, server->client list %r (real %s knows %r): '
+                                 'asyncssh uses %r, the rule gives %r' % (cat, l_cs, l_sc, role, alpha, got, want)))
+                if w.proto.error:
+                    viol.append(('peer-rejects', str(w.proto.error)))
+            finally:
+                w.close()
+        except (R.RefError, Livelock) as exc:
+            viol.append(('peer-rejects', str(exc)))
+        acc.add(core.digest(('asym', cat, role, tuple(l_cs), tuple(l_sc))), transitions=1,
+                sample={'category': cat, 'real_role': role, 'c2s_list': l_cs, 's2c_list': l_sc} if len(l_cs) == 2 and len(l_sc) == 3 else None)
+        for k, det in viol:
+            acc.violation('nego:%s:%s:%s' % (k, cat, role), det, {'kind': 'asym', 'cat': cat, 'role': role, 'l_cs': l_cs})
+    return acc
+
+
 def hostkey_nego_worker(job):
     """server host key algorithm = first on the client's server_host_key_algs the server can do"""
     acc = core.Acc()
@@ -426,6 +503,8 @@ def main(tier, seed):
     hj = [(list(c), list(s)) for c in itertools.permutations(hk_alpha, 3) for s in itertools.permutations(hk_alpha, 2)]
     hj += [(list(c), list(s)) for c in itertools.permutations(hk_alpha, 2) for s in itertools.permutations(hk_alpha, 3)]
     acc.merge(core.pmap(hostkey_nego_worker, core.rotate(hj, seed), chunksize=8))
+    aj = [(cat, role, l) for cat in ACATS for role in ('server', 'client') for l in sublists(ACATS[cat][0])]
+    acc.merge(core.pmap(asym_worker, core.rotate(aj, seed)))
     rule = ('for each of %d non-GSS kex methods and each direction: edits of the version line (software '
             'byte, comment, trailing space/tab/CR, case, protocol number), of KEXINIT (cookie, each of the 10 '
             'name-lists: drop first/middle/last, duplicate, swap, keep only last, append, prepend; '
@@ -433,7 +512,8 @@ def main(tier, seed):
             '(thorough: every byte), truncation, trailing byte, first field set to 0/1/all-ones/short); the '
             'handshake must not complete on either side.  Negotiation: every ordered pair of non-empty '
             'permutation sub-lists of a 3-algorithm alphabet for kex, cipher, MAC, compression and host key '
-            'algorithm through a real handshake' % len(ks))
+            'algorithm through a real handshake; cipher, MAC and compression also with different lists for the two '
+            'directions, offered by the independent peer to a real server and to a real client' % len(ks))
     return core.finish(PROP, tier, seed, 'fault_enumeration', acc, t0, rule,
                        {'kex_methods': ks, 'edit_execs': n_edit,
                         'quick_reduction': 'slow DH groups (15-18) and RSA kex get every 6th edit in quick'},
@@ -449,6 +529,8 @@ def replay(rep):
         acc.violations = [v for v in full.violations if v['replay']['slist'] == r['slist']]
     elif r['kind'] == 'hostkey':
         acc = hostkey_nego_worker((r['corder'], r['sorder']))
+    elif r['kind'] == 'asym':
+        acc = asym_worker((r['cat'], r['role'], r['l_cs']))
     else:
         full = edit_worker((r['kex'], 'thorough'))
         acc = core.Acc()
